@@ -4,7 +4,7 @@ Tier B, exhaustive small scope.  The real ``pp.MixedDimensionalGrid`` is driven 
 operation sequence (``add_subdomains`` / ``add_interface`` / ``remove_subdomain`` /
 ``replace_subdomains_and_interfaces``) up to length 5 (quick) / 6 (thorough) over a pool of real tiny grids
 (two 2-D, two 1-D, two 0-D ``PointGrid``; twelve real ``pp.MortarGrid`` interfaces, one per admissible pair,
-co-dimension 1 and 2).  After EVERY operation the complete observable view of the container (all listings with
+co-dimension 1 and 2; the real mortar updates run on every replacement).  After EVERY operation the complete observable view of the container (all listings with
 all filters, both pair maps, boundary-grid map, membership, neighbour queries, counters; plus the internal-map
 invariant when the private dictionaries exist) is compared with an independent set/dict model that is updated from
 the property statement only.
@@ -17,18 +17,29 @@ checked exactly once (breadth first, so at the largest remaining depth).  The nu
 counted from the model.  A seeded sample of full-length histories is additionally replayed on one single
 container object (no ``copy()`` in between) as a cross-check of that sharing.
 
-Detection power (scratch copy of /repo/src, POREPY_SRC=<copy>, quick tier; each run exited 1 with VIOLATION):
+Detection power (scratch copy of /repo/src with the four candidate defects below repaired so that the baseline exits 0,
+POREPY_SRC=<copy>, quick tier; every mutant run exited 1 with VIOLATION lines):
   M1 md_grid.argsort_grids: ``np.argsort(ids_dim)`` -> ``np.arange(len(ids_dim))`` (no sorting by id)
-       caught by "listing: subdomains() sorted by (-dim, id), each present object once"
-  M2 md_grid.remove_subdomain: ``sd_pair[0] == sd or sd_pair[1] == sd`` -> ``sd_pair[0] == sd`` (interfaces where
-       the removed grid is the lower-dimensional side survive)
-       caught by "remove_subdomain: removes exactly sd, its interfaces, its boundary grid"
-  M3 md_grid.replace_subdomains_and_interfaces: secondary branch writes ``(sd_new, sd_pair[0])`` (pair swapped)
-       caught by "interface_to_subdomain_pair: (higher, lower) pair of every present interface"
+       caught by "listing: subdomains() sorted by (-dim, id), each present object once" (+ 30 dependent clauses)
+  M2 md_grid.remove_subdomain: ``sd_pair[0] == sd or sd_pair[1] == sd`` -> ``sd_pair[0] == sd`` (interfaces whose lower-
+       dimensional side is removed survive)
+       caught by "remove_subdomain: removes exactly sd, its interfaces, its boundary grid", "listing: interfaces() ...", counters
+  M3 md_grid.replace_subdomains_and_interfaces: secondary branch stores ``(sd_new, sd_pair[0])`` (pair stored lower-first)
+       caught only by "class invariant: internal maps consistent" (the public pair query re-sorts the pair)
   M4 md_grid.add_subdomains: boundary grid created for ``sd.dim > 1`` only
        caught by "boundary grids: exactly one per positive-dimensional subdomain"
-  M5 md_grid.replace_subdomains_and_interfaces: old boundary grid data not deleted (``del _boundary_grid_data[bg_old]`` dropped)
-       caught by "listing: boundaries() sorted, each present boundary grid once"
+  M5 md_grid.replace_subdomains_and_interfaces: ``del self._boundary_grid_data[bg_old]`` dropped
+       caught by "listing: boundaries() sorted, each present boundary grid once", membership, class invariant
+  M6 md_grid.replace_subdomains_and_interfaces: primary branch stores ``(sd_old, sd_pair[1])`` (pair not updated)
+       caught by "interface_to_subdomain_pair: (higher, lower) pair of every present interface",
+       "subdomain_pair_to_interface: inverse of interface_to_subdomain_pair", neighbour queries
+
+Candidate defects of the unchanged tree found by this check (kept strict; reported to the lead):
+  * remove_subdomain(0-d grid) raises KeyError (no boundary-grid entry)            signature "remove 0-d subdomain"
+  * replace_subdomains_and_interfaces({0-d: 0-d}) raises KeyError likewise         signature "replace 0-d subdomain"
+    (in both cases the container is left in the correct post-state; only "raises nothing" fails)
+  * add_interface with a co-dimension-3 pair raises ValueError AFTER registering the interface: it stays listed without a pair
+  * add_subdomains(one-shot iterator) silently adds nothing (the iterable is consumed by the duplicate check)
 """
 from __future__ import annotations
 
